@@ -27,6 +27,10 @@ ASSUMPTIONS = [
     "elementary reflectors use the LAPACK Users' Guide storage (v(i)=1 implicit, Q = H1..Hk for QR, Q = Hk^H..H1^H for LQ)",
     "size-inconsistent variants are only tried when all dimensions of the call are positive (zero dimensions require nothing)",
     "invalid option letters are not part of the property and are not tried",
+    "gges with a select call-back: the sign of the diagonal of T / of b after the reordering is left to the reference "
+    "LAPACK (it is only demanded without select)",
+    "a buffer of exactly offset + (cols-1)*ld + rows elements (band: + band rows) holds the addressed block "
+    "(DESIGN.md Appendix B); a call that is rejected although all its buffers satisfy this is reported",
 ]
 
 FUNCS = ("getrf getrs getri gesv gbtrf gbtrs gbsv gttrf gttrs gtsv potrf potrs potri posv pbtrf pbtrs pbsv pttrf "
@@ -45,16 +49,19 @@ WATCHDOG = {"quick": 600, "thorough": 3000}
 
 def plan(tier):
     if tier == "thorough":
-        return [{"variant": "plain", "workers": 16, "cases": 24000}]
+        return [{"variant": "plain", "workers": 16, "cases": 50000}]
     return [{"variant": "plain", "workers": 8, "cases": 1500}]
 
 
-# thresholds on the normalised residuals  r = ||R|| / (u * max(1,n) * scale).
-# (>= 100 x the maxima observed over seeds 0,1,2,3,7,12345 on both tiers; a wrong
-# transpose / triangle / offset gives r ~ 1e15)
+# thresholds on the normalised residuals  r = ||R|| / (u * max(1,n) * scale),  u = 2^-53  (i.e. c(n) = THR * n).
+# Maxima observed on the unchanged tree over seeds 0,1,2,3,7,12345, both tiers (2.4 million cases):
+#   solve 7.4 (hesv)   factor 2.0   inverse 4.0 (potri)   equal 1.4 (hetrs vs hesv, scale includes cond(A))
+#   qr 4.5   orth 25 (heevr)   mult 2.2   ls 866 (gels normal equations)   eigval 20 (syevr)   eigvec 20 (syevr)
+#   geig 4.2 (sygv)   svd 45 (gesvd)   schur 13 (gees)   aux 8 (larfg)
+# every threshold is >= 100 x the maximum; a wrong transpose / triangle / offset / factor 2 gives r >= 1e12.
 THR = {
-    "solve": 1e3, "factor": 1e3, "inverse": 1e5, "equal": 1e5, "qr": 1e3, "orth": 1e3, "mult": 1e3,
-    "ls": 1e5, "eigval": 1e3, "eigvec": 1e4, "geig": 1e6, "svd": 1e3, "schur": 1e3, "aux": 1e3,
+    "solve": 2e3, "factor": 1e3, "inverse": 1e4, "equal": 1e3, "qr": 1e3, "orth": 1e4, "mult": 1e3,
+    "ls": 1e6, "eigval": 1e4, "eigvec": 1e4, "geig": 1e4, "svd": 1e4, "schur": 1e4, "aux": 2e3,
 }
 
 
@@ -258,7 +265,6 @@ def make_env(ctx):
             kw2[tgt] = kw2[tgt] + 40
         a2 = [copies[id(a)] if isinstance(a, Blk) else a for a in args]
         k2 = {k: (copies[id(v)] if isinstance(v, Blk) else v) for k, v in kw2.items()}
-        imgs = {i: bytes(memoryview(m)) for i, m in copies.items()}
         _trace("invalid-" + kind, fname, args, kw2)
         ctx.count("mut." + kind)
         what = "%s with %s" % (fname, {"short": "buffer of %s one element too short", "ld": "ld of %s below its minimum",
@@ -271,6 +277,7 @@ def make_env(ctx):
         lens = {b.name: {"len": len(copies[id(b)]), "needs": b.req} for b in blks}
         if outcome in ("TypeError", "ValueError"):
             ctx.count("invalid.rejected")
+            ctx.count("rej." + fname)
             c.require(not modified, "%s:invalid-%s-args-modified" % (fname, kind),
                       what + ": rejected, but an argument was modified")
             return
@@ -407,6 +414,9 @@ def make_env(ctx):
         if mutable and c.rng.random() < 0.4:
             _try_invalid(c, fname, args, kw, grow)
         ctx.count("fn." + fname)
+        for k_, v_ in kw.items():
+            if isinstance(v_, str) and len(v_) == 1:
+                ctx.count("opt.%s.%s=%s" % (fname, k_, v_))
         try:
             ret = getattr(lapack, fname)(*a2, **k2)
         except Exception as e:
